@@ -69,6 +69,7 @@ type interpreter struct {
 	reachAlways     bool
 	curInstr        ssa.Instruction
 	frozenCount     int
+	envCount        int
 	initAllow       func(path string) bool
 	inInit          bool
 	funcsSeen       map[*ssa.Function]bool
